@@ -1,7 +1,7 @@
 (* C09 — BACnet/IP frames carry a correct length and round-trip all twelve functions.
    Property theorems only; the model is Bac.Bvll (bvll.py + AnnexJCodec, octets below the codec),
    proofs live in Bac.BvllFacts / BvllRound / BvllTotal / BvllStable. *)
-From Bac Require Import Base Bvll BvllFacts BvllRound BvllTotal BvllStable.
+From Bac Require Import Base Bvll BvllFacts BvllRound BvllTotal BvllStable BvllRt BvllGen BvllGenFacts.
 Open Scope N_scope.
 
 (* every frame the encoder emits — whatever the parameters, whatever bvlciLength the object held
@@ -179,6 +179,129 @@ Print Assumptions C09_reencode_stable.
 Theorem C09_registry : forall f k, lookup_fn f bvl_pdu_types = Some k <-> fn_of_kind k = f.
 Proof. exact registry_exact. Qed.
 Print Assumptions C09_registry.
+
+(* ======== the tie by TRANSLATION ==========================================================
+   BacGen.BvllFns is regenerated from py34/bacpypes/bvll.py on every run by
+   translator/gen_bvllfns.py (statement-by-statement translation of the method bodies); the
+   theorems below say the translated text and the hand model are the same functions, for all
+   inputs, and restate the main results directly on the translated functions. *)
+
+(* klass.messageType, read from the class bodies, is the Annex J code of the class *)
+Theorem C09_translated_message_type_is_model : forall k, class_messageType k = fn_of_kind k.
+Proof. exact message_type_is_model. Qed.
+Print Assumptions C09_translated_message_type_is_model.
+
+(* BVLCI.update copies exactly the three header attributes *)
+Theorem C09_translated_update_is_model : forall dst src, BVLCI_update dst src = Ok (hdr_copy dst src, src).
+Proof. exact BVLCI_update_is_model. Qed.
+Print Assumptions C09_translated_update_is_model.
+
+(* BVLCI.encode + BVLPDU.encode, any object into any PDU: type, function, length check, length, body *)
+Theorem C09_translated_bvlpdu_encode_is_model : forall self pdu,
+  BVLPDU_encode self pdu =
+  do t <- put (bvlciType self);
+  do f <- put (bvlciFunction self);
+  if negb (bvlciLength self =? lenN (pduData self) + 4) then Err EncodingError
+  else Ok (self, py_append pdu (t ++ f ++ put_short (bvlciLength self) ++ pduData self)).
+Proof. exact BVLPDU_encode_is_model. Qed.
+Print Assumptions C09_translated_bvlpdu_encode_is_model.
+
+(* BVLCI.decode + BVLPDU.decode, any object from any PDU, is dec_bvlci *)
+Theorem C09_translated_bvlpdu_decode_is_model : forall self pdu,
+  BVLPDU_decode self pdu =
+  do (fl, body) <- dec_bvlci (pduData pdu);
+  Ok (set_pduData body (set_bvlciLength (snd fl) (set_bvlciFunction (fst fl) (set_bvlciType 129 self))),
+      set_pduData [] pdu).
+Proof. exact BVLPDU_decode_is_model. Qed.
+Print Assumptions C09_translated_bvlpdu_decode_is_model.
+
+(* the twelve encode() methods: any object of any class into any BVLPDU is enc_body / enc_len *)
+Theorem C09_translated_class_encode_is_model : forall k self b,
+  class_encode k self b =
+  do body <- enc_body (msg_of_obj k self);
+  Ok (enc_self k self, py_append (hdr_copy b (enc_self k self)) body).
+Proof. exact class_encode_is_model. Qed.
+Print Assumptions C09_translated_class_encode_is_model.
+
+(* the twelve decode() methods: whatever the receiving object held before, its parameters
+   afterwards are dec_body of the octets (so nothing of an earlier frame or of a shared default
+   survives in the model of the code) and its header is the BVLPDU's *)
+Theorem C09_translated_class_decode_is_model : forall k self b,
+  match class_decode k self b with
+  | Ok (r, _) => dec_body k (pduData b) = Ok (msg_of_obj k r) /\ same_header r b
+  | Err e => dec_body k (pduData b) = Err e
+  end.
+Proof. exact class_decode_spec. Qed.
+Print Assumptions C09_translated_class_decode_is_model.
+
+(* whole frames through AnnexJCodec *)
+Theorem C09_translated_enc_frame_is_model : forall stored m, gen_enc_frame_with stored m = enc_frame_with stored m.
+Proof. exact gen_enc_frame_with_is_model. Qed.
+Print Assumptions C09_translated_enc_frame_is_model.
+
+Theorem C09_translated_dec_frame_is_model : forall fresh bs, gen_dec_frame_from fresh bs = dec_frame bs.
+Proof. exact gen_dec_frame_from_is_model. Qed.
+Print Assumptions C09_translated_dec_frame_is_model.
+
+(* the delivered object carries the function and length that were read and checked *)
+Theorem C09_translated_delivered_header : forall fresh bs k rpdu,
+  gen_confirmation fresh bs = Ok (k, rpdu) ->
+  exists body, dec_bvlci bs = Ok (bvlciFunction rpdu, bvlciLength rpdu, body) /\ bvlciType rpdu = 129 /\
+               lookup_fn (bvlciFunction rpdu) bvl_pdu_types = Some k.
+Proof. exact gen_confirmation_header. Qed.
+Print Assumptions C09_translated_delivered_header.
+
+(* the property's statements on the translated functions *)
+Theorem C09_translated_length_field : forall stored m bs,
+  gen_enc_frame_with stored m = Ok bs -> lenN bs < 65536 ->
+  nth 0 bs 0 = 129 /\ nth 1 bs 0 = fn_of m /\ nth 2 bs 0 * 256 + nth 3 bs 0 = lenN bs.
+Proof. exact gen_length_field. Qed.
+Print Assumptions C09_translated_length_field.
+
+Theorem C09_translated_roundtrip : forall fresh m, wf_msg m = true -> frame_len m < 65536 ->
+  exists bs, gen_enc_frame m = Ok bs /\ gen_dec_frame_from fresh bs = Ok m /\ lenN bs = frame_len m.
+Proof. exact gen_frame_roundtrip. Qed.
+Print Assumptions C09_translated_roundtrip.
+
+Theorem C09_translated_stale_length_refused : forall stored m, wf_msg m = true ->
+  enc_len stored m <> frame_len m -> gen_enc_frame_with stored m = Err EncodingError.
+Proof. exact gen_stale_refused. Qed.
+Print Assumptions C09_translated_stale_length_refused.
+
+Theorem C09_translated_refuses_type : forall fresh bs,
+  hd_error bs <> Some 129 -> gen_dec_frame_from fresh bs = Err DecodingError.
+Proof. exact gen_dec_frame_type. Qed.
+Print Assumptions C09_translated_refuses_type.
+
+Theorem C09_translated_refuses_length_any : forall fresh bs,
+  nth 2 bs 0 * 256 + nth 3 bs 0 <> lenN bs -> gen_dec_frame_from fresh bs = Err DecodingError.
+Proof. exact gen_dec_frame_length_any. Qed.
+Print Assumptions C09_translated_refuses_length_any.
+
+Theorem C09_translated_refuses_unknown_function : forall fresh f hi lo body,
+  12 <= f -> gen_dec_frame_from fresh (129 :: f :: hi :: lo :: body) = Err DecodingError.
+Proof. exact gen_dec_frame_unknown. Qed.
+Print Assumptions C09_translated_refuses_unknown_function.
+
+Theorem C09_translated_accepts_only_consistent : forall fresh bs m, gen_dec_frame_from fresh bs = Ok m ->
+  exists hi lo body, bs = 129 :: fn_of m :: hi :: lo :: body /\ hi * 256 + lo = lenN bs.
+Proof. exact gen_dec_frame_accepts. Qed.
+Print Assumptions C09_translated_accepts_only_consistent.
+
+Theorem C09_translated_decode_total : forall fresh bs,
+  (exists m, gen_dec_frame_from fresh bs = Ok m) \/ gen_dec_frame_from fresh bs = Err DecodingError.
+Proof. exact gen_dec_frame_total. Qed.
+Print Assumptions C09_translated_decode_total.
+
+(* non-vacuity of the translated definitions: they compute *)
+Example C09_translated_example :
+  gen_enc_frame (ReadFDTAck [mkFdte (ip_addr 192 168 0 10 47808) (Some 30%Z) (Some 5%Z)])
+    = Ok [129; 7; 0; 14; 192; 168; 0; 10; 186; 192; 0; 30; 0; 5]
+  /\ gen_dec_frame [129; 7; 0; 14; 192; 168; 0; 10; 186; 192; 0; 30; 0; 5]
+    = Ok (ReadFDTAck [mkFdte (ABytes [192; 168; 0; 10; 186; 192]) (Some 30%Z) (Some 5%Z)])
+  /\ gen_dec_frame_from (fun _ => obj_of_msg 0 (ReadFDTAck [mkFdte ANone None None])) [129; 7; 0; 4] = Ok (ReadFDTAck [])
+  /\ gen_dec_frame [129; 1; 0; 9; 1; 2; 3; 4; 5] = Err DecodingError.
+Proof. repeat split; vm_compute; reflexivity. Qed.
 
 (* non-vacuity: concrete messages of every class meet wf_msg and the length bound *)
 Example C09_wf_examples :
